@@ -12,7 +12,8 @@ CONSTANTS MaxLen,      \* streams of 0..MaxLen tokens followed by EOF
 Kinds == {"N", "E", "X"}
 Streams == UNION { { s \o <<"EOF">> : s \in [1..n -> Kinds] } : n \in 0..MaxLen }
 Elided(k) == k \in {"E", "X"}
-Preds == {{}, {"X"}, {"N"}, {"E", "X"}}
+\* (the last one accepts an elided kind AND the ordinary kind: the first token it accepts from the raw cursor on wins)
+Preds == {{}, {"X"}, {"N"}, {"E", "X"}, {"N", "X"}}
 NoCp == <<0, 0, 0>>
 
 VARIABLES toks,    \* the stream
@@ -48,7 +49,7 @@ RECURSIVE PALoop(_, _, _, _)
 PALoop(t, i, M, rd) == IF t[i] = "EOF" \/ t[i] \in M \/ ~Elided(t[i]) THEN <<i, rd \cup {i}>> ELSE PALoop(t, i + 1, M, rd \cup {i})
 
 S(n) == ToString(n)
-PredName(M) == CASE M = {} -> "none" [] M = {"X"} -> "X" [] M = {"N"} -> "N" [] OTHER -> "EX"
+PredName(M) == CASE M = {} -> "none" [] M = {"X"} -> "X" [] M = {"N"} -> "N" [] M = {"N", "X"} -> "NX" [] OTHER -> "EX"
 
 Init == /\ toks \in Streams
         /\ raw = 1 /\ nxt = Adv(toks, 1, {})[1] /\ cur = 0
